@@ -48,7 +48,7 @@ MAX_HITS = 8
 def configure(tier, avoid):
     quick = tier == 'quick'
     p = gen.Params(max_stmts=14 if quick else 22, max_depth=2, expr_depth=2,
-                   max_procs=3, min_procs=1, call_bias=0.12, edgy=0.05,
+                   max_procs=3, min_procs=1, call_bias=0.12, edgy=0.25,
                    error_rate=0.02, probe_rate=0.22, avoid=avoid,
                    features={'input': False, 'devices': False})
     return {'examples': 200 if quick else 4000, 'params': p, 'tier': tier,
